@@ -453,6 +453,100 @@ def r01e(ctx):
         ctx.report("R01e", h, h.node, "_erase_map_once arithmetic", "_erase_map_once no longer removes exactly the length of the erased run")
 
 
+# ------------------------------------------------------------------ R01f/g/h
+def r01fgh(ctx):
+    repo = ctx.repo
+    ctx.rule("R01f", "append declarations: the run length declared to the map is the repeat of the item appended", floor=6)
+    ctx.rule("R01g", "position lookup: first run whose last position is >= the position (bisect_left), None beyond the end", floor=2)
+    ctx.rule("R01h", "bulk setters advance by the width of what they just set (cells: repeat or 1; rows: one per input row, also when skipped)", floor=4)
+    for cname in ("Row", "Table"):
+        c = repo.cls(cname)
+        for name, fs in c.methods.items():
+            f = fs[0]
+            for n in walk_no_nested(f.node):
+                if not (isinstance(n, ast.Call) and call_name(n) in ("append_cell", "append_row", "append_column")):
+                    continue
+                rep = get_arg(n, None, "_repeated")
+                if rep is None or not n.args:
+                    continue
+                item = n.args[0]
+                ok, why = False, ""
+                if isinstance(item, ast.Call) and call_name(item) in ("Cell", "Row", "Column"):
+                    ir = get_arg(item, None, "repeated")
+                    ok = ir is not None and ast.unparse(ir) == ast.unparse(rep)
+                    why = f"{call_name(item)}(repeated={ast.unparse(ir) if ir is not None else None}) declared as {ast.unparse(rep)}"
+                elif isinstance(item, ast.Name) and isinstance(rep, ast.Name):
+                    # rep must be defined as `<item>.repeated or 1` (or the literal 1 on the path where item was just created)
+                    defs = [a for a in walk_no_nested(f.node) if isinstance(a, ast.Assign) and isinstance(a.targets[0], ast.Name) and a.targets[0].id == rep.id]
+                    texts = {ast.unparse(a.value) for a in defs}
+                    ok = bool(defs) and texts <= {f"{item.id}.repeated or 1", "1"} and f"{item.id}.repeated or 1" in texts
+                    why = f"{item.id} declared as {rep.id} = {sorted(texts)}"
+                ctx.instance("R01f", f"{f.file}:{f.ident}", f"{call_name(n)}: {why}", ok=ok, nontrivial=True, line=n.lineno)
+                if not ok:
+                    ctx.report("R01f", f, n, n, f"the run length declared with _repeated is not the repeat count of the appended item ({why}): "
+                               f"the position map and the XML disagree after the append")
+    # the append primitives themselves: default for _repeated is `<item>.repeated or 1`
+    for q, var in (("Row.append_cell", "cell"), ("Table.append_row", "row"), ("Table.append_column", "column")):
+        f = repo.func(q)
+        dfl = [a for a in walk_no_nested(f.node) if isinstance(a, ast.Assign) and isinstance(a.targets[0], ast.Name) and a.targets[0].id == "_repeated"]
+        texts = {ast.unparse(a.value) for a in dfl}
+        ok = f"{var}.repeated or 1" in texts and texts <= {f"{var}.repeated or 1", "1"}
+        ctx.instance("R01f", f"{f.file}:{f.ident}", f"_repeated defaults to {sorted(texts)}", ok=ok, nontrivial=True)
+        if not ok:
+            ctx.report("R01f", f, f.node, f"_repeated default {sorted(texts)}", f"{q} does not default the declared run length to `{var}.repeated or 1`")
+        decl = [a for a in walk_no_nested(f.node) if isinstance(a, ast.Assign) and isinstance(a.value, ast.Call) and call_name(a.value) == "insert_map_once"]
+        ok = bool(decl) and len(decl[0].value.args) == 3 and ast.unparse(decl[0].value.args[2]) == "_repeated"
+        ctx.instance("R01f", f"{f.file}:{f.ident}", "map extended by _repeated", ok=ok)
+        if not ok:
+            ctx.report("R01f", f, f.node, "insert_map_once(…, _repeated)", f"{q} does not extend the map by the declared run length")
+    # R01g
+    g = repo.func("element_cached:find_odf_idx")
+    calls = [c for c in walk_no_nested(g.node) if isinstance(c, ast.Call) and call_name(c).startswith("bisect")]
+    ok = len(calls) == 1 and call_name(calls[0]) == "bisect_left" and [ast.unparse(a) for a in calls[0].args] == ["cache_map", "position"]
+    ctx.instance("R01g", f"{g.file}:{g.ident}", "odf_idx = bisect_left(cache_map, position)", ok=ok, nontrivial=True)
+    if not ok:
+        ctx.report("R01g", g, g.node, "find_odf_idx bisect", "the map stores the last position of each run: the run holding `position` is the first entry >= position "
+                   "(bisect_left); any other search addresses the neighbouring run")
+    cmp_ = [n for n in walk_no_nested(g.node) if isinstance(n, ast.Compare)]
+    ok = bool(cmp_) and ast.unparse(cmp_[0]).replace(" ", "") == "odf_idx<len(cache_map)" and any(
+        isinstance(r, ast.Return) and isinstance(r.value, ast.Constant) and r.value.value is None for r in walk_no_nested(g.node))
+    ctx.instance("R01g", f"{g.file}:{g.ident}", "None when the position lies beyond the last run", ok=ok, nontrivial=True)
+    if not ok:
+        ctx.report("R01g", g, g.node, "find_odf_idx bound", "find_odf_idx does not return None exactly when the position is beyond the last run")
+    h = repo.func("element_cached:make_cache_map")
+    okm = any(isinstance(c, ast.Call) and call_name(c) == "insert_map_once" and [ast.unparse(a) for a in c.args][1:] == ["odf_idx", "repeated"] for c in walk_no_nested(h.node))
+    ctx.instance("R01g", f"{h.file}:{h.ident}", "map built by insert_map_once(map, odf_idx, repeated) per item", ok=okm)
+    if not okm:
+        ctx.report("R01g", h, h.node, "make_cache_map", "the initial map is not built from (item index, repeat) pairs")
+    # R01h
+    f = repo.func("Row.set_cells")
+    steps = [a for a in walk_no_nested(f.node) if isinstance(a, ast.AugAssign) and isinstance(a.target, ast.Name) and a.target.id == "x"]
+    texts = sorted(ast.unparse(a.value) for a in steps)
+    ok = texts == ["1", "cell.repeated or 1"]
+    ctx.instance("R01h", f"{f.file}:{f.ident}", f"x advances by {texts}", ok=ok, nontrivial=True)
+    if not ok:
+        ctx.report("R01h", f, f.node, f"Row.set_cells step {texts}", "after setting a cell the position must advance by that cell's repeat count (1 for None)")
+    f = repo.func("Row.set_values")
+    steps = [ast.unparse(a.value) for a in walk_no_nested(f.node) if isinstance(a, ast.AugAssign) and isinstance(a.target, ast.Name) and a.target.id == "x"]
+    ok = steps == ["1"]
+    ctx.instance("R01h", f"{f.file}:{f.ident}", f"x advances by {steps}", ok=ok)
+    if not ok:
+        ctx.report("R01h", f, f.node, f"Row.set_values step {steps}", "values are single cells: the position must advance by one")
+    for q in ("Table.set_cells", "Table.set_values"):
+        f = repo.func(q)
+        loop = [n for n in walk_no_nested(f.node) if isinstance(n, ast.For)]
+        ok = False
+        if loop:
+            body = loop[0].body
+            first = body[0] if body else None
+            ok = isinstance(first, ast.AugAssign) and ast.unparse(first.target) == "y" and ast.unparse(first.value) == "1" and isinstance(first.op, ast.Add)
+            pre = [a for a in walk_no_nested(f.node) if isinstance(a, ast.AugAssign) and ast.unparse(a.target) == "y" and isinstance(a.op, ast.Sub) and a.lineno < loop[0].lineno]
+            ok = ok and len(pre) == 1 and ast.unparse(pre[0].value) == "1"
+        ctx.instance("R01h", f"{f.file}:{f.ident}", "y -= 1 before the loop, y += 1 first in every iteration (also for skipped rows)", ok=ok, nontrivial=True)
+        if not ok:
+            ctx.report("R01h", f, f.node, f"{q} row stepping", "the row position must advance by one for every input row, including empty ones that are skipped")
+
+
 def run(ctx):
     tom = run_tom(ctx.repo)
     r01a(ctx, tom)
@@ -460,6 +554,7 @@ def run(ctx):
     r01c(ctx)
     r01d(ctx)
     r01e(ctx)
+    r01fgh(ctx)
 
 
 from ..selftest import Seed, unparse_seed  # noqa: E402
@@ -514,6 +609,16 @@ SEEDS = [
          "    current_pos = before_cache + 1\n    current_repeated = current_cache - before_cache + 1\n    repeated_before = position - current_pos\n    repeated_after = current_repeated - repeated_before - repeated", "R01e"),
     Seed("delete: map not shifted", "fault", _EC,
          "            vault_map[:odf_idx] + [(x - 1) for x in vault_map[odf_idx + 1 :]],", "            vault_map[:odf_idx] + [x for x in vault_map[odf_idx + 1 :]],", "R01e"),
+    Seed("set_cell pads with one cell too few in the map", "fault", _R,
+         "            self.append_cell(Cell(repeated=diff), _repeated=diff, clone=False)\n            cell_back = self.append_cell(cell, _repeated=repeated, clone=clone)",
+         "            self.append_cell(Cell(repeated=diff), _repeated=diff - 1, clone=False)\n            cell_back = self.append_cell(cell, _repeated=repeated, clone=clone)", "R01f"),
+    Seed("append_row declares one repetition", "fault", _T, "            _repeated = row.repeated or 1\n        self._tmap", "            _repeated = 1\n        self._tmap", "R01f"),
+    Seed("find_odf_idx uses bisect_right", "fault", _EC, "    odf_idx = bisect_left(cache_map, position)", "    odf_idx = bisect_right(cache_map, position)",
+         "R01g", edits=[(_EC, "from bisect import bisect_left, insort", "from bisect import bisect_left, bisect_right, insort")]),
+    Seed("Row.set_cells steps by one", "fault", _R, "                    x += cell.repeated or 1\n", "                    x += 1\n", "R01h"),
+    Seed("Table.set_values does not advance on empty rows", "fault", _T,
+         "        for row_values in values:\n            y += 1\n            if not row_values:\n                continue\n            row = self.get_row(y, clone=True)",
+         "        for row_values in values:\n            if not row_values:\n                continue\n            y += 1\n            row = self.get_row(y, clone=True)", "R01h"),
     unparse_seed(_T), unparse_seed(_R), unparse_seed(_EC),
     Seed("un-repeat written with inverted test", "neutral", _T,
          "            repeated = row.repeated or 1\n            if repeated >= 2:\n                row.repeated = None\n            row.set_cells(row_cells, start=x, clone=clone)",
